@@ -226,7 +226,32 @@ fn random_kind(rng: &mut Rng, table: &[IfSpec]) -> Kind {
 /// One random edit of the interface table; returns what was done.
 fn edit_table(rng: &mut Rng, table: &mut Vec<IfSpec>) -> &'static str {
     for _ in 0..8 {
-        match rng.below(9) {
+        match rng.below(11) {
+            9 => {
+                // the same address with another prefix length (a renewed lease, a corrected netmask)
+                let k = rng.usize(table.len());
+                if table[k].addrs.is_empty() {
+                    continue;
+                }
+                let j = rng.usize(table[k].addrs.len());
+                let (a, p) = table[k].addrs[j];
+                table[k].addrs[j].1 = match (a, p) {
+                    (IpAddr::V4(_), 24) => 16,
+                    (IpAddr::V4(_), _) => 24,
+                    (IpAddr::V6(_), 64) => 48,
+                    (IpAddr::V6(_), _) => 64,
+                };
+                return "prefix-changed";
+            }
+            10 => {
+                // the interface is created anew by the system: same name, same addresses, another index
+                let k = rng.usize(table.len());
+                if table[k].index >= 20 || table[k].name == "lo" {
+                    continue;
+                }
+                table[k].index += 20;
+                return "interface-reindexed";
+            }
             7 => {
                 // renumbering inside the subnet: one address is replaced by its neighbour
                 let k = rng.usize(table.len());
@@ -593,6 +618,8 @@ pub struct MadeE {
     /// (entry index of the accepted registration, what was registered)
     pub regs: Vec<(usize, RegInfo)>,
     pub horizon: u64,
+    /// questions injected: (entry index, time, interface, over IPv4, service number, 2 = ANY on the instance / 3 = ANY on the host)
+    pub asked: Vec<(usize, u64, u32, bool, usize, u8)>,
 }
 
 const FOREIGN: &str = "172.31.9.9";
@@ -610,6 +637,7 @@ pub fn scenario_e(seed: u64) -> MadeE {
     let mut calls = Vec::new();
     let mut edits = vec![(t0, table.clone())];
     let mut regs = Vec::new();
+    let mut asked: Vec<(usize, u64, u32, bool, usize, u8)> = Vec::new();
     // timeline: (time, kind, index)  kind 0 = selection call, 1 = register, 2 = table edit, 3 = query
     let mut ops: Vec<(u64, u8, usize)> = Vec::new();
     // selections made before anything is registered (several, so that "the last match wins" matters for
@@ -696,21 +724,26 @@ pub fn scenario_e(seed: u64) -> MadeE {
                 let s = rng.usize(n_svcs);
                 let mut q = Message::query();
                 let inst = scen::wire_name(&format!("svc{s}._t._udp.local."));
-                q.questions.push(match rng.below(5) {
+                let qkind = rng.below(5);
+                q.questions.push(match qkind {
                     0 => wire::question(&scen::wire_name("_t._udp.local."), wire::T_PTR),
                     1 => wire::question(&scen::wire_name("_http._tcp.local."), wire::T_PTR),
                     2 => wire::question(&inst, wire::T_ANY),
                     3 => wire::question(&scen::wire_name(&format!("h{s}.local.")), wire::T_ANY),
                     _ => wire::question(&scen::wire_name(&format!("h{s}.local.")), if v4 { wire::T_A } else { wire::T_AAAA }),
                 });
+                let qidx = w.trace.entries.len();
                 w.inject_msg(h, i.index, peer_on(&i, v4), &q);
                 w.settle();
+                if qkind == 2 || qkind == 3 {
+                    asked.push((qidx, w.now(), i.index, v4, s, qkind as u8));
+                }
             }
         }
     }
     let horizon = t0 + t_end;
     w.run_until(horizon);
-    MadeE { world: w, desc, calls, edits, regs, horizon }
+    MadeE { world: w, desc, calls, edits, regs, horizon, asked }
 }
 
 fn record_addr(r: &wire::Record) -> Option<IpAddr> {
@@ -795,6 +828,55 @@ pub fn monitor_e(made: &MadeE, l: &mut Local) {
                     return;
                 }
             }
+        }
+    }
+    // positive: a question about a service that has long been registered, on a link where it has an address of the
+    // transport's family, with no edit or call in the last few seconds, is answered at once
+    for (qidx, t, ifi, v4, sidx, qkind) in made.asked.iter() {
+        let Some((ridx, reg)) = made.regs.iter().find(|(_, r)| r.instance == format!("svc{sidx}") && r.ty_only == "_t._udp.local.") else { continue };
+        let t_reg = trace.entries[*ridx].t;
+        let settled = |from: u64, to: u64| !made.edits.iter().skip(1).any(|(te, _)| te + FLUX_MS + 2700 > from && *te <= to) && !made.calls.iter().any(|(i, _, _)| trace.entries[*i].t + 2700 > from && trace.entries[*i].t <= to);
+        if *t < t_reg + 2700 || !settled(*t, *t) || made.regs.iter().filter(|(_, r)| r.instance == reg.instance).count() != 1 {
+            continue;
+        }
+        // (services sharing this one's host name with other addresses make "the" answer ambiguous: left to C06)
+        if made.regs.iter().any(|(_, r)| r.host == reg.host && r.instance != reg.instance) {
+            continue;
+        }
+        let here = enabled_on(*qidx, *t, *ifi);
+        let fam_here: Vec<&(IpAddr, u8)> = here.iter().filter(|(a, _)| a.is_ipv4() == *v4).collect();
+        let addrs = svc_addrs(reg, *qidx, *t);
+        let eligible = if *qkind == 2 {
+            // instance questions: an address of the transport's family in one of the link's subnets of that family
+            addrs.iter().any(|a| a.is_ipv4() == *v4 && fam_here.iter().any(|(x, p)| same_subnet(x, *p, a)))
+        } else {
+            addrs.iter().any(|a| here.iter().any(|(x, p)| same_subnet(x, *p, a))) && !fam_here.is_empty()
+        };
+        if !eligible {
+            continue;
+        }
+        // (an address that two interfaces hold at some time - the same link-local address on two links - is taken
+        // from an automatic service when either of them goes: not judged here)
+        let shared_somewhere = made.edits.iter().any(|(_, tab)| here.iter().any(|(a, _)| tab.iter().filter(|i| i.addrs.iter().any(|(x, _)| x == a)).count() > 1));
+        if shared_somewhere {
+            continue;
+        }
+        let inst = scen::wire_name(&reg.fullname);
+        let host = scen::wire_name(&reg.host);
+        // (only where the service has been announced, over that family: whether a service with explicit addresses
+        // is taken to interfaces that are switched on after its registration is not what this rule is about)
+        let announced_there = txs.iter().any(|tx| tx.out_if == Some(*ifi) && tx.v4 == *v4 && tx.t >= t_reg && tx.t + 1100 < *t && tx.msg.is_response() && tx.multicast && tx.msg.answers.iter().any(|r| r.rtype == wire::T_SRV && r.ttl > 0 && wire::names_eq_nocase(&r.name, &inst)));
+        if !announced_there {
+            continue;
+        }
+        l.act("I1-answered");
+        let answered = txs.iter().any(|tx| tx.idx > *qidx && tx.t == *t && tx.out_if == Some(*ifi) && tx.msg.is_response() && tx.msg.records().any(|r| wire::names_eq_nocase(&r.name, if *qkind == 2 { &inst } else { &host })));
+        if !answered {
+            l.violate(
+                Violation::new("I1", format!("I1/question-unanswered-on-eligible-link/{}", if reg.addr_auto { "automatic" } else { "explicit" }), format!("a question for {} on interface #{ifi} over {} got no answer although the service has an address there and nothing had changed for seconds", if *qkind == 2 { &reg.fullname } else { &reg.host }, if *v4 { "IPv4" } else { "IPv6" }))
+                    .with(json!({"scenario": made.desc, "service_addresses": addrs.iter().map(|a| a.to_string()).collect::<Vec<_>>(), "enabled_addresses_there": here.iter().map(|(a, p)| format!("{a}/{p}")).collect::<Vec<_>>(), "trace": scen::witness_window(trace, t.saturating_sub(3000), *t + 5, 40)})),
+            );
+            return;
         }
     }
     // positive: announced on every eligible enabled link soon after registration (no edit or call in between)
